@@ -137,6 +137,10 @@ def run(model, col, tier):
 
     col.check(bool(opt) and bool(_re17.fullmatch(r"(\w+\.opt_level > 0|\w+\.opt_level >= 1|bool\(\w+\.opt_level\)|\w+\.opt_level != 0|0 < \w+\.opt_level|1 <= \w+\.opt_level)", " ".join(unparse(opt[0]).split()))), "R17.2", "nslc.py::optimisation switch", "-O maps to the optimize option", None, "nslc.py", nslc.tree)
     ld = model.cls(IR, "FilesystemModuleLoader").own_method("Load")
+    if ld is not None:
+        from ..sem import expand_helpers as _xh172
+
+        ld = _xh172(model, model.cls(IR, "FilesystemModuleLoader"), ld)
     loads = [c for c in ast.walk(ld) if isinstance(c, ast.Call) and dotted(c.func) == "pickle.load"]
     def _binary_open(a):
         return isinstance(a, ast.Call) and last_attr(a) == "open" and isinstance(a.func, ast.Attribute) and isinstance(a.func.value, ast.Name) \
